@@ -10,6 +10,7 @@ import (
 	"os/exec"
 	"path/filepath"
 	"regexp"
+	"strconv"
 	"strings"
 	"sync"
 	"time"
@@ -53,6 +54,27 @@ type RawObs struct {
 	SB, SA   [][]int
 	Steps    []RawStep
 }
+
+// par is the number of parallel goderive runs (VERIF_PAR, default 16); TLC runs use par/2 (at most 8).
+func par() int {
+	if v, err := strconv.Atoi(os.Getenv("VERIF_PAR")); err == nil && v >= 1 {
+		return v
+	}
+	return 16
+}
+
+func tlcPar() int {
+	p := par() / 2
+	if p < 1 {
+		p = 1
+	}
+	if p > 8 {
+		p = 8
+	}
+	return p
+}
+
+var rePkgLine = regexp.MustCompile(`^(c\d+)/`)
 
 var rePos = regexp.MustCompile(`^[^\s:]+\.go:\d+:\d+: `)
 
@@ -105,14 +127,23 @@ func runShapes(c *core.Ctx, bin string, shapes []*Shape, tag string) (map[int]*R
 		next <- sh
 	}
 	close(next)
-	errs := make([]error, 16)
-	for w := 0; w < 16; w++ {
+	nw := par()
+	errs := make([]error, nw)
+	for w := 0; w < nw; w++ {
 		wg.Add(1)
 		go func(w int) {
 			defer wg.Done()
 			for sh := range next {
 				d := filepath.Join(root, sh.Pkg)
 				r, err := gd.Run(c, bin, d, []string{"."}, "", 60*time.Second)
+				if err == nil && r.Exit < 0 && !r.TimedOut {
+					// killed by a signal (not by our timeout): not goderive's doing, try once more
+					os.Remove(filepath.Join(d, "derived.gen.go"))
+					r, err = gd.Run(c, bin, d, []string{"."}, "", 60*time.Second)
+					if err == nil && r.Exit < 0 && !r.TimedOut {
+						err = fmt.Errorf("goderive was killed by a signal twice in %s", sh.Pkg)
+					}
+				}
 				if err != nil {
 					errs[w] = err
 					return
@@ -121,6 +152,10 @@ func runShapes(c *core.Ctx, bin string, shapes []*Shape, tag string) (map[int]*R
 				sh.GenErr = strings.TrimSpace(r.Stderr + r.Stdout)
 				if data, err := os.ReadFile(filepath.Join(d, "derived.gen.go")); err == nil {
 					sh.Derived = string(data)
+				}
+				if sh.GenExit != 0 || sh.TimedOut {
+					// reported as a generator failure; keep its leftovers out of the build
+					os.RemoveAll(d)
 				}
 			}
 		}(w)
@@ -143,6 +178,9 @@ func runShapes(c *core.Ctx, bin string, shapes []*Shape, tag string) (map[int]*R
 		if strings.TrimSpace(line) == "" {
 			continue
 		}
+		if m := rePkgLine.FindStringSubmatch(line); m != nil && (cur == "" || !strings.HasPrefix(line, cur+"/")) {
+			cur = m[1] // parse errors are printed without a "# package" header
+		}
 		if cur == "" {
 			return nil, fmt.Errorf("go build of the test module failed outside a package: %s", trim(out, 2000))
 		}
@@ -156,6 +194,10 @@ func runShapes(c *core.Ctx, bin string, shapes []*Shape, tag string) (map[int]*R
 		byPkg[sh.Pkg] = sh
 	}
 	for p := range failed {
+		if sh := byPkg[p]; sh != nil && (sh.GenExit != 0 || sh.TimedOut) {
+			delete(failed, p)
+			continue
+		}
 		if byPkg[p] == nil {
 			return nil, fmt.Errorf("go build reports an unknown package %q: %s", p, trim(out, 2000))
 		}
